@@ -56,6 +56,7 @@ type psSessPlan struct {
 	maxRecv        int // -1 unlimited; manual >= 0; iterator >= 1
 	trigger        bool
 	leaveByPanic   bool // iterator with maxRecv > 0: leave the loop by a panic out of the body instead of break
+	nilYield       bool // never-run / cancelled-first: the iterator is called with a nil yield func (documented to panic, after making sure the subscription is withdrawn exactly once)
 	preCancel      int  // iterator-cancelled-first: 0 cancel after SubscribeContext returned, 1 before the call, 2 racing the call
 	trigSend       int  // canceller waits for this (global) Send index to be invoked ...
 	trigStall      int  // ... then stalls this many steps, then withdraws the subscription
@@ -199,6 +200,10 @@ func drawPSSession(prof psProfile, totalSends int) psSessPlan {
 	}
 	if simrt.Chance(1, 5) {
 		s.stallAfterRecv = simrt.DrawRange(1, 20)
+		if simrt.Chance(1, 3) {
+			// a subscriber a whole cycle behind: the others receive, acknowledge and receive again meanwhile
+			s.stallAfterRecv = simrt.DrawRange(20, 150)
+		}
 	}
 	if simrt.Chance(1, 5) {
 		s.stallAfterWait = simrt.DrawRange(1, 20)
@@ -208,6 +213,9 @@ func drawPSSession(prof psProfile, totalSends int) psSessPlan {
 	}
 	if s.kind == psIterNeverRun {
 		s.cancelPause = drawPause()
+	}
+	if (s.kind == psIterNeverRun || s.kind == psIterCancelFirst) && simrt.Chance(1, 4) {
+		s.nilYield = true
 	}
 	if s.kind == psIterCancelFirst && simrt.Chance(2, 3) {
 		s.preCancel = simrt.DrawRange(1, 2)
@@ -399,6 +407,20 @@ func (r *psRun) iterLoop(s *psSub) {
 	s.state = "ended"
 }
 
+// callNilYield calls the iterator with a nil yield function and absorbs the documented panic.
+func (r *psRun) callNilYield(s *psSub) {
+	simrt.Probe("iterator_called_with_nil_yield")
+	s.state = "calling the iterator with a nil yield func"
+	defer func() {
+		if x := recover(); x != nil {
+			if fmt.Sprintf("%T", x) == "simrt.abortRun" {
+				panic(x)
+			}
+		}
+	}()
+	s.seq(nil)
+}
+
 // psBodyPanic is the value panicked with by a loop body that leaves an iterator that way.
 var psBodyPanic = any("c06: scripted panic out of the iterator's loop body")
 
@@ -461,12 +483,25 @@ func (r *psRun) subscriberTask(ti int) {
 			r.iterSubscribe(s)
 			s.state = "holding an iterator it will never run"
 			sp.cancelPause.do(r.plan.unit)
-			r.cancelIter(s, "iterator_never_run")
+			if sp.nilYield {
+				// the misuse path of the iterator withdraws the subscription itself, synchronously
+				s.wdInv = simrt.Stamp()
+				r.callNilYield(s)
+				s.wdRet = simrt.Stamp()
+			} else {
+				r.cancelIter(s, "iterator_never_run")
+			}
 			s.state = "ended"
 		case psIterCancelFirst:
 			r.iterSubscribe(s)
 			r.cancelIter(s, "cancel_before_iterate")
-			r.iterLoop(s)
+			if sp.nilYield {
+				// the cancellation already withdraws the subscription: the misuse path must not do it again
+				r.callNilYield(s)
+				s.state = "ended"
+			} else {
+				r.iterLoop(s)
+			}
 		}
 		r.endSession(s)
 		if simrt.Failed() {
